@@ -516,6 +516,22 @@ def case_algebra(c):
                       'by %.3g (tol %.3g) at spectrum %d chan %d: %r vs %r; error against the definition %.3g'
                       % (kind, M, P, err, tol, j[0], j[1], complex(Xc[j]), complex(Xs[j]),
                          float(np.abs(Xc.astype(R.CLD) - ref).max())))
+            # the same with the natural (non-contiguous) views x.real / x.imag, and with other strided views of a
+            # larger buffer: the result must not depend on the memory layout of the input
+            try:
+                Xv = ch(xc.real) + 1j * ch(xc.imag)
+                big = np.zeros(2 * len(xc), dtype=xc.dtype)
+                big[::2] = xc
+                Xstr = ch(big[::2])
+                cols = np.stack([xc.real, xc.imag], axis=1)          # (samples, 2): column views
+                Xcol = ch(cols[:, 0]) + 1j * ch(cols[:, 1])
+                n_eval += 3
+                for name_, Xalt in (('x.real / x.imag views', Xv), ('a [::2] strided view', Xstr), ('column views of a (n, 2) array', Xcol)):
+                    if Xalt.shape != Xc.shape or not (float(np.abs(Xalt - Xc).max()) <= tol):
+                        V('noncontiguous_input', '%s input M=%d P=%d: channelising %s differs from channelising the contiguous array by %.3g (tol %.3g)'
+                          % (kind, M, P, name_, float(np.abs(Xalt - Xc).max()) if Xalt.shape == Xc.shape else float('nan'), tol))
+            except Exception as e:
+                V('noncontiguous_input', '%s input: a non-contiguous view was rejected: %s: %s' % (kind, type(e).__name__, e))
         # get_pfb_voltages lower half
         for kind in ('noise_tone', 'int_ramp'):
             x = make_input(kind, cw * N, M, P, seed, 24)
